@@ -4,6 +4,7 @@ package discoverychain
 
 import (
 	"errors"
+	"reflect"
 
 	"github.com/hashicorp/consul/agent/configentry"
 	"github.com/hashicorp/consul/agent/structs"
@@ -96,10 +97,17 @@ func VerifC15_CompileTotal() {
 			Failover: map[string]structs.ServiceResolverFailover{"*": {Service: "x"}}})
 	}
 
+	req := CompileRequest{ServiceName: "main", EvaluateInNamespace: "default", EvaluateInPartition: "default",
+		EvaluateInDatacenter: "dc1", EvaluateInTrustDomain: "b6fc9da3-03d4-4b5a-9134-c045e9b20152.consul", Entries: set}
+	ref, rerr := Compile(req)
 	verifrt.PermuteMaps(true)
-	chain, err := Compile(CompileRequest{ServiceName: "main", EvaluateInNamespace: "default", EvaluateInPartition: "default",
-		EvaluateInDatacenter: "dc1", EvaluateInTrustDomain: "b6fc9da3-03d4-4b5a-9134-c045e9b20152.consul", Entries: set})
+	chain, err := Compile(req)
 	verifrt.PermuteMaps(false)
+	// the result does not depend on the order in which maps are visited
+	verifrt.Assert("C15.compile.same-outcome-in-every-map-order", (err == nil) == (rerr == nil))
+	if err == nil && rerr == nil {
+		verifrt.Assert("C15.compile.same-chain-in-every-map-order", reflect.DeepEqual(ref, chain))
+	}
 	if err != nil {
 		var ge *structs.ConfigEntryGraphError
 		verifrt.Assert("C15.compile.failure-is-a-graph-error", errors.As(err, &ge))
